@@ -272,7 +272,7 @@ func VerifC01ScanWork() {
 		src += unit
 	}
 	nd.WorkBound(40 * len(src))
-	nd.LoopBound(40 * n)
+	nd.LoopBound(40 * len(src)) // a scanner written as byte loops gets the same allowance as the matcher
 	_, err := NewEngine().ParseString(src)
 	nd.Assert(err != nil, "unterminated-blocks-rejected")
 	nd.Reach("C01.scanwork")
